@@ -7,7 +7,7 @@ META = dict(
     text="About 50 well-formed requests and responses are generated from structured fields (fixed length, chunked with extensions and "
          "trailers, read-until-close, bodiless, 100-continue, HEAD/204/304, header lines with no / one / several blanks after the colon, "
          "LF-only heads), each followed by the first bytes of a next message.  Every split of every message into <= 3 receives (<= 4 for "
-         "messages up to 60 bytes in the thorough tier) is delivered to a fresh ioflo Requestant or Respondent with parse() called after "
+         "messages up to 100 bytes in the thorough tier) is delivered to a fresh ioflo Requestant or Respondent with parse() called after "
          "each receive, as the service loops do.  Parsed start line, headers, body, trailers and the unconsumed remainder must equal the "
          "generator's ground truth and the one-piece parse.  States = (message, split) schedules, transitions = parse() steps.",
     note="Bounded by message set and piece count (<=3 / <=4): a defect needing four or more specific cut points in one long message, or "
@@ -85,9 +85,10 @@ def make(label, kind, start, headers=(), framing=("none",), eol=CRLF, cont100=No
         else:
             tail = b"HTTP/1.\r\n" if eol == CRLF else b"HTTP/1.\n"
     truth = dict(start=tstart, headers=_truth_headers(headers), body=body,
-                 trailers=_truth_headers(trailers), rest=tail)
+                 trailers=_truth_headers(trailers), rest=tail, prompt=True)
     return dict(label=label, kind=kind, wire=wire + tail, truth=truth, close=(fr == "close"),
-                method=method, msglen=len(wire))
+                method=method, msglen=len(wire), framing=fr + ("+100" if cont100 is not None else "") +
+                ("+lf" if eol == LF else ""))
 
 
 def messages():
@@ -200,7 +201,7 @@ def innermost(ex):
     tb = traceback.extract_tb(ex.__traceback__)
     fn = "?"
     for fr in tb:
-        if "/ioflo/" in fr.filename:
+        if "/ioflo/aio/http/" in fr.filename:
             fn = fr.name
     return fn
 
@@ -212,7 +213,13 @@ def execute(m, pieces):
         p = serving.Requestant(msg=bytearray(), incomer=FakeIncomer())
     else:
         p = clienting.Respondent(msg=bytearray(), method=m["method"])
-    steps, finished, exc = split.drive(p, pieces, close=m["close"], idle=2)
+    steps, finished, exc, delivered = split.drive(p, pieces, close=m["close"], idle=2)
+    # the receive that carried the message's last byte
+    need = 0
+    for piece in pieces:
+        need += len(piece)
+        if need >= m["msglen"]:
+            break
     if exc is not None:
         return dict(outcome="raises", exc="%s|%s" % (type(exc).__name__, innermost(exc)), detail=str(exc)[:120]), steps
     if not finished:
@@ -223,10 +230,11 @@ def execute(m, pieces):
         start = (p.version, p.status, p.reason)
     return dict(outcome="errored" if p.errored else "parsed",
                 start=start, headers=hdict(p.headers), body=bytes(p.body), trailers=hdict(p.trails),
-                rest=bytes(p.msg), error=p.error, parms=pdict(p.parms), ended=bool(p.ended)), steps
+                rest=bytes(p.msg), error=p.error, parms=pdict(p.parms), ended=bool(p.ended),
+                prompt=(delivered <= need)), steps
 
 
-TRUTH_FIELDS = ("start", "headers", "body", "trailers", "rest")
+TRUTH_FIELDS = ("start", "headers", "body", "trailers", "rest", "prompt")
 
 
 def diff_truth(obs, truth):
@@ -264,7 +272,7 @@ def work(arg):
         part.traces += 1
         part.states += 1
         part.evaluations += 1
-        part.outcome("%s:%s" % (m["kind"], whole["outcome"] + (":" + whole["exc"] if "exc" in whole else "")))
+        part.outcome("%s:%s:%s" % (m["kind"], m["framing"], whole["outcome"] + (":" + whole["exc"] if "exc" in whole else "")))
         dt = diff_truth(whole, m["truth"])
         if dt is not None:
             part.violation("%s|whole-vs-truth|%s" % (parser, dt), m["label"],
@@ -308,7 +316,7 @@ def run():
     items = []
     for i, m in enumerate(ms):
         k = 3
-        if core.TIER == "thorough" and len(m["wire"]) <= 60:
+        if core.TIER == "thorough" and len(m["wire"]) <= 100:
             k = 4
         items.append((i, k))
     # biggest first for balance; results are merged in message order
@@ -319,7 +327,7 @@ def run():
         parts[i] = res[pos]
     ck.merge(parts)
     ck.coverage_extra = dict(messages=len(ms), max_message_bytes=max(len(m["wire"]) for m in ms),
-                             pieces_bound="3" if core.TIER == "quick" else "3 (4 for messages <= 60 bytes)")
+                             pieces_bound="3" if core.TIER == "quick" else "3 (4 for messages <= 100 bytes)")
     ck.assumptions = [
         "ground truth: header value = text after the colon with optional blanks (SP/HTAB) removed (RFC 7230 3.2); names case-insensitive; "
         "trailers likewise; request start line = (method, request-target, version), response = (version, status, reason)",
@@ -329,6 +337,8 @@ def run():
         "(mixed line ends in one HTTP head are outside the statement; see C33 for the event-stream case)",
         "chunk-extension parameters are compared between split and whole parse only (the statement lists start line, headers, body, trailers)",
         "read-until-close responses: peer close is signalled with Respondent.close() after the last receive",
+        "'its bytes' = the message's own bytes: the parse must be complete once the receive carrying the message's last byte has been "
+        "parsed (field 'prompt'), not only after bytes of the next message arrive",
     ]
     return ck.finish(
         rule="state = (message, cut positions): all C(n-1,<=k-1) splits of each of the generated messages (+ next-message tail); transition = one "
